@@ -678,3 +678,88 @@ func borrowedBufferNotRetained(c *Ctx, rule string) {
 	})
 	c.Check(len(why) == 0, rule, funcName(fn)+":borrowed-buffer", fn.Pos(), "the receive buffer is decoded before NotifyMsg returns (not handed to a goroutine, stored or sent)", strings.Join(why, "; ")+": memberlist reuses the buffer once NotifyMsg has returned, so what is decoded later is some other message (or garbage)")
 }
+
+// ---- a goroutine is handed a copy of lock-protected slices and maps, never the protected value ----------
+//
+// A method of a struct that carries a mutex starts a goroutine (the message bus's delivery, a
+// sender) which runs after the method has released the lock. A slice or map loaded from a field of
+// that struct and handed to the goroutine as it is shares its backing store with the writers
+// (Unsubscribe compacts the subscriber list in place): the goroutine then skips or repeats entries.
+// It must get a copy made under the lock (append to a fresh slice, copy, a new map).
+func goroutinesGetCopies(c *Ctx, rule string, pkgs []string) {
+	p := c.P
+	want := map[string]bool{}
+	for _, k := range pkgs {
+		want[modPkg(k)] = true
+	}
+	hasMutex := func(t types.Type) bool {
+		st, ok := deref(t).Underlying().(*types.Struct)
+		if !ok {
+			return false
+		}
+		for i := 0; i < st.NumFields(); i++ {
+			ft := st.Field(i).Type()
+			if namedIs(ft, "sync", "Mutex") || namedIs(ft, "sync", "RWMutex") {
+				return true
+			}
+		}
+		return false
+	}
+	n, bad := 0, 0
+	for _, fn := range p.ModFuncs {
+		if fn.Pkg == nil || !want[fn.Pkg.Pkg.Path()] || !p.Production(fn) {
+			continue
+		}
+		root := outermost(fn)
+		if root.Signature.Recv() == nil || !hasMutex(root.Signature.Recv().Type()) || len(root.Params) == 0 {
+			continue
+		}
+		fn := fn
+		eachInstr(fn, func(in ssa.Instruction) {
+			g, ok := in.(*ssa.Go)
+			if !ok {
+				return
+			}
+			n++
+			vals := append([]ssa.Value{}, g.Call.Args...)
+			if mc, ok := g.Call.Value.(*ssa.MakeClosure); ok {
+				vals = append(vals, mc.Bindings...)
+			}
+			for _, v := range vals {
+				switch v.Type().Underlying().(type) {
+				case *types.Slice, *types.Map:
+				default:
+					continue
+				}
+				t := p.TermOf(v).Strip()
+				// a pure access path (field / index / slice / lookup) rooted at the receiver
+				pure := true
+				cur := t
+				for cur != nil && pure {
+					switch cur.Op {
+					case "field", "index", "slice", "lookup":
+						if len(cur.Args) == 0 {
+							pure = false
+						} else {
+							cur = cur.Args[0].Strip()
+						}
+					case "param":
+						if !(cur.Fn == root && cur.Idx == 0) {
+							pure = false
+						}
+						cur = nil
+					default:
+						pure = false
+					}
+				}
+				if pure {
+					bad++
+					c.Fail(rule, funcName(fn)+":goroutine-copy", in.Pos(), "the goroutine started here is handed "+t.String()+", a slice/map of the lock-protected receiver itself, not a copy: it runs after the lock is released and shares the backing store with writers that modify it in place")
+				}
+			}
+		})
+	}
+	if bad == 0 {
+		c.Ok(rule, "goroutines-get-copies", 0, fmt.Sprintf("%d goroutine start(s) in methods of lock-carrying structs; none is handed a protected slice or map as it is", n))
+	}
+}
